@@ -66,6 +66,14 @@ CANARIES = [
     ('c04-sqlite-strip-space', 'C04', 'mindsdb_sql/parser/parser.py', "        return p[0].strip('\\'')", "        return p[0].strip('\\' ')", 'C04.dec.sqlite.QUOTE_STRING'),
     ('c04-harmless-slice', 'C04', 'mindsdb_sql/parser/parser.py', "        return p[0].strip('\\'')", "        return p[0][1:-1]", None),
     ('c04-int-plus-one', 'C04', 'mindsdb_sql/parser/dialects/mindsdb/parser.py', "    def integer(self, p):\n        return int(p[0])", "    def integer(self, p):\n        return int(p[0]) + (1 if len(p[0]) > 18 else 0)", 'C04.int.mindsdb'),
+    ('c16-shift-off', 'C16', 'mindsdb_sql/parser/utils.py', "            shift = last_pos + 1", "            shift = last_pos", 'C16.tts.step.new-line'),
+    ('c16-pad-off', 'C16', 'mindsdb_sql/parser/utils.py', "        line += ' '*(token.index - shift - len(line))", "        line += ' '*(token.index - shift - len(line) - 1)", 'C16.tts.step'),
+    ('c16-no-last-line', 'C16', 'mindsdb_sql/parser/utils.py', "    # last line\n    content += line\n    return content", "    # last line\n    return content", 'C16.tts.exit'),
+    ('c16-collect-drop-paren', 'C16', 'mindsdb_sql/parser/dialects/mindsdb/parser.py', "        return [p._slice[0]] + p[1] + [p._slice[2]]", "        return [p._slice[0]] + p[1]", 'C16.collect.LPAREN_raw_query_RPAREN'),
+    ('c16-job-swap', 'C16', 'mindsdb_sql/parser/dialects/mindsdb/parser.py', "            query_str = tokens_to_string(p.raw_query0)\n            if_query_str = tokens_to_string(p.raw_query1)",
+     "            query_str = tokens_to_string(p.raw_query1)\n            if_query_str = tokens_to_string(p.raw_query0)", 'C16.store.create_job'),
+    ('c16-lexer-float-normalise', 'C16', 'mindsdb_sql/parser/dialects/mindsdb/lexer.py', "    def FLOAT(self, t):\n        return t", "    def FLOAT(self, t):\n        t.value = t.value.rstrip('0')\n        return t", 'C16.raw.FLOAT'),
+    ('c16-token-left-out', 'C16', 'mindsdb_sql/parser/dialects/mindsdb/parser.py', "all_tokens_list.remove('LPAREN')", "all_tokens_list.remove('LPAREN')\nall_tokens_list.remove('MODULO')", 'C16.alltokens'),
 ]
 
 
